@@ -383,7 +383,7 @@ Definition string_tag_check (c : cfg) (tag : N) : bool :=  (* true = rejected *)
 Definition deserialize_any_scalar (c : cfg) (ev : scalar_ev) : sres :=
   let tag := sv_tag ev in let st := sv_style ev in let value := sv_value ev in
   if tag =? TAG_Null then RUnit
-  else if scalar_is_nullish value st then RUnit
+  else if negb (tag =? TAG_String) && scalar_is_nullish value st then RUnit
   else if negb (is_plain st) || negb (can_parse_into_string tag) || (tag =? TAG_Binary) || (tag =? TAG_String)
   then
     if (tag =? TAG_Binary) && negb (ignore_binary_tag_for_string c) then take_string_scalar c ev
@@ -456,7 +456,7 @@ Fixpoint deser_scalar (c : cfg) (t : target) (ev : scalar_ev) : sres :=
     else if string_tag_check c tag then RErr E_TaggedScalarCannotDeserializeIntoString
     else RStr value
   | TgStr =>
-    if (tag =? TAG_Null) || scalar_is_nullish value st then RErr E_NullIntoString
+    if ((tag =? TAG_Null) || scalar_is_nullish value st) && negb (tag =? TAG_String) then RErr E_NullIntoString
     else RStr value
   | TgBytes =>
     if tag =? TAG_Binary then
@@ -466,7 +466,7 @@ Fixpoint deser_scalar (c : cfg) (t : target) (ev : scalar_ev) : sres :=
   | TgUnit => if scalar_is_nullish value st then RUnit else RErr E_UnexpectedValueForUnit
   | TgOption t' =>
     if tag =? TAG_Null then RNone
-    else if scalar_is_nullish_for_option value st then RNone
+    else if negb (tag =? TAG_String) && scalar_is_nullish_for_option value st then RNone
     else match deser_scalar c t' ev with
          | RErr e => RErr e
          | r => RSome r
